@@ -18,7 +18,7 @@ RULE = ("case = (protocol version 2|3; 48-bit device id; for V3 a 64-byte token 
         "attribute, apply(): the model device's state decoded with its own vendor-layout decoder must equal applied field by "
         "field, non-settable fields unchanged, no frame rejected, every packet carries the configured device id, and A's "
         "attributes equal applied. (b) a fresh client B (new object, connection, handshake) refresh(): B's attributes equal the "
-        "model's state (enum members / raw custom fan), sensor temperatures by C11's predicate, online and supported. "
+        "model's state (enum members / raw custom fan), sensor temperatures by C11's predicate, online and supported. (c) optionally the history continues: another party (client B, or the remote control) changes the unit, then client A applies the same state again and the unit must be in it again. "
         "Non-trivial: applied != initial in >= 3 fields and (V3 or setpoint outside 17..30 or half degree or a cut inside a "
         "packet or an unsolicited frame). Distinct by whole case.")
 ASSUMPTIONS = ["V2 has no stream reassembly by design: V2 replies are delivered one packet per segment (generator soundness restriction, DESIGN C01 N)",
@@ -95,6 +95,22 @@ def _check_once(case: dict):
         b = await connect()
         await b.refresh()
         res["b_attrs"] = acutil.read_attrs(b)
+        if case.get("again"):
+            # history A, B, A: somebody else (client B, or the remote control) puts the unit into another state, then client A -
+            # the same object as before - applies its state again: it must reach the unit again
+            other = dict(applied, power=not applied["power"], mode=1 + applied["mode"] % 5, target=20.5 if applied["target"] != 20.5 else 26.0,
+                         fan=60 if applied["fan"] != 60 else 80, eco=not applied["eco"], swing=0xF if applied["swing"] != 0xF else 0x0)
+            if case["again"] == "client":
+                acutil.set_attrs(b, other)
+                await b.apply()
+            else:
+                for k_, v_ in acutil.expected_model_fields(other).items():
+                    setattr(m.state, k_, v_)
+            res["model_other"] = m.state.copy()
+            res["other"] = other
+            acutil.set_attrs(a, applied)
+            await a.apply()
+            res["model_again"] = m.state.copy()
         res["rejected"] = list(m.rejected)
         res["ids"] = sorted({t[3] for t in dev.transmissions})
         res["undecodable"] = [(e.kind, e.note) for e in dev.log if e.kind == "undecodable"]
@@ -138,6 +154,13 @@ def _check_once(case: dict):
             return (f"{who[0]}/outdoor", f"outdoor {got['outdoor']!r} for raw {st_after.outdoor_raw} tenths {st_after.outdoor_tenths}")
     if version == 3 and res["conns"] != 2:
         return ("connections", f"{res['conns']} connections for two clients")
+    if "model_again" in res:
+        d0 = acutil.diff_model(res["model_other"], acutil.expected_model_fields(res["other"]))
+        if d0:
+            return (f"apply-other/{d0[0].split(':')[0]}", "device state after the other party's change: " + "; ".join(d0))
+        d1 = acutil.diff_model(res["model_again"], want)
+        if d1:
+            return (f"apply-again/{d1[0].split(':')[0]}", f"client A applied its state again after {case['again']} changed the unit, device state: " + "; ".join(d1))
     return None
 
 
@@ -196,7 +219,7 @@ def cases():
         "version": st.sampled_from([2, 3, 3]), "id": gens.device_ids(48), "token": hexb(gens.tokens64()), "key": hexb(gens.keys32()),
         "token_form": st.sampled_from(["bytes", "hex"]), "key_form": st.sampled_from(["bytes", "hex"]),
         "applied": gens.settable_states(), "initial": gens.device_states(), "script": st.lists(exch, min_size=0, max_size=4)},
-        optional={"idle_push": st.lists(st.sampled_from(["STATE", "STATE", "A0", "B5N"]), min_size=1, max_size=3)})
+        optional={"idle_push": st.lists(st.sampled_from(["STATE", "STATE", "A0", "B5N"]), min_size=1, max_size=3), "again": st.sampled_from([None, "client", "remote"])})
 
 
 def run(ctx) -> None:
